@@ -131,6 +131,10 @@ impl UserProtocol for Proto {
                         }
                         TransportEvent::ConnectionClosed { peer: _ } => {
                             log.push(json!({"e": "p_closed", "o": obs, "n": node, "q": q}));
+                            // opens still waiting for their outcome will never get one
+                            for (_, (_, resp)) in pending.drain() {
+                                if let Some(r) = resp { let _ = r.send(Err("connection closed before the open completed".into())); }
+                            }
                         }
                         TransportEvent::SubstreamOpened { substream, direction, .. } => match direction {
                             Direction::Inbound => {
@@ -157,7 +161,6 @@ impl UserProtocol for Proto {
                                     }
                                     Some((OpenMode::Echo, resp)) => {
                                         let mut s = substream;
-                                        let lg = log.clone();
                                         jobs.push(Box::pin(async move {
                                             let r = async {
                                                 s.send_framed(Bytes::from_static(b"x")).await.map_err(|e| format!("send: {e:?}"))?;
@@ -247,6 +250,13 @@ pub struct Node {
     pub exec: Arc<PerturbExecutor>,
     pub alive: bool,
     log: Log,
+}
+
+impl Drop for Node {
+    fn drop(&mut self) {
+        // tasks spawned through the executor do not end with the handle: stop them explicitly
+        self.exec.kill();
+    }
 }
 
 impl Node {
